@@ -148,3 +148,4 @@ class FileBasedCollectionMetadata(CollectionMetadata):
             del self._configparser["calendar"]["order"]
         else:
             self._configparser["calendar"]["order"] = order
+        self._save("Set calendar order.")
